@@ -99,11 +99,15 @@ namespace pika::threads::detail {
 
         while (!exit_funcs_.empty())
         {
+            // take the callback off the list while the lock is held: a callback added
+            // concurrently (push_front) must neither be popped in its place nor be read
+            // while the list is modified
+            auto f = std::move(exit_funcs_.front());
+            exit_funcs_.pop_front();
             {
                 pika::detail::unlock_guard<std::unique_lock<pika::detail::spinlock>> ul(l);
-                if (!exit_funcs_.front().empty()) exit_funcs_.front()();
+                if (!f.empty()) f();
             }
-            exit_funcs_.pop_front();
         }
         ran_exit_funcs_ = true;
     }
